@@ -55,12 +55,22 @@ class StoreModel:
         w = LdmWorld("Dictionary")
         w.ref = R.RefStore()
         w.ids = []            # identifiers in the order they were issued
+        w.shared = []         # immutable message dictionaries (shared between snapshots)
         w.last = None
         w.setup_bad = []
         for ev in self.setup:
             self.apply(w, ev)
             w.setup_bad += self._compare(w, ev)
         return w
+
+    def _msg(self, w, name, side="impl"):
+        """One message object per (name, side) and world lineage; the implementation never sees the reference's copy."""
+        for n, sd, m in w.shared:
+            if n == name and sd == side:
+                return m
+        m = L.MSGS[name]()
+        w.shared.append((name, side, m))
+        return m
 
     def enabled(self, w):
         out = []
@@ -72,8 +82,26 @@ class StoreModel:
             out.append(ev)
         return out
 
+    # -- canonical keys, cached (per reference record / per real record object within one transition) ---------------------
+    def _rkey(self, r):
+        k = r.cache.get("key")
+        if k is None:
+            k = r.cache["key"] = ckey(r.record())
+        return k
+
+    def _ikey(self, rec):
+        hit = self._kc.get(id(rec))
+        if hit is None or hit[0] is not rec:
+            hit = self._kc[id(rec)] = (rec, ckey(rec))
+        return hit[1]
+
+    def share(self, w):
+        """Message dictionaries are never mutated in place (an update replaces them), so snapshots share them."""
+        return w.shared
+
     # -- one transition: real call + reference step ------------------------------------------------------------------
     def apply(self, w, ev):
+        self._kc = {}
         ref = w.ref
         op = ev[0]
         exp = dict(op=op)          # what the reference expects of the response
@@ -99,7 +127,7 @@ class StoreModel:
             exp.update(ack=0 if ref.dereg_consumer(ev[1]) else 1)
         elif op == "add":
             _, app, mname, validity, loc = ev
-            msg = L.MSGS[mname]()
+            msg = self._msg(w, mname)
             got = w.add(app, msg, validity, loc)
             registered = app in ref.providers
             exp.update(registered=registered)
@@ -109,7 +137,7 @@ class StoreModel:
                     spec = L.LOCS[loc]
                     d = spec["d"]
                     locrec = R.location_record(L.LDM_LAT + d[0], L.LDM_LON + d[1], L.LDM_ALT + d[2], ell=spec.get("ell", (0, 0, 0)))
-                    ref.add(got, app, L.its_ms(now), locrec, loc, L.MSGS[mname](), validity, now, spec["inside"])
+                    ref.add(got, app, L.its_ms(now), locrec, loc, self._msg(w, mname, "ref"), validity, now, spec["inside"])
                 w.ids.append(got)
         elif op in ("upd", "del"):
             app, k = ev[1], ev[2]
@@ -118,13 +146,13 @@ class StoreModel:
             registered = app in ref.providers
             exp.update(registered=registered, target=st, oid=oid)
             if op == "upd":
-                msg = L.MSGS[ev[3]]()
+                msg = self._msg(w, ev[3])
                 rec = ref.recs.get(oid)
                 same_type = rec is not None and R.msg_type(rec.content) == R.msg_type(msg)
                 exp.update(same_type=same_type)
                 got = w.update(app, oid, msg)
                 if got == 0 and registered and st in ("must", "may"):
-                    rec.content = L.MSGS[ev[3]]()
+                    rec.set_content(self._msg(w, ev[3], "ref"))
             else:
                 got = w.delete(app, oid)
                 if got == 0 and registered and st in ("must", "may"):
@@ -187,7 +215,14 @@ class StoreModel:
             elif tgt in ("gone", "never"):
                 if got == 0:
                     v("unknown_identifier_accepted", result=got, target=tgt)
-        res = dict(result=got if isinstance(got, int) else None)
+        res = dict(result=got if isinstance(got, int) else None, registered=exp.get("registered"))
+        target = ref.recs.get(exp.get("oid")) if op == "del" else None
+
+        def twin(r):     # is r an identical copy (content, timestamp, location, validity) of the object this delete named?
+            return bool(target is not None and r is not target and self._rkey(r) == self._rkey(target))
+
+        def has_twin(r):
+            return any(o is not r and not o.must_absent() and self._rkey(o) == self._rkey(r) for o in ref.recs.values())
 
         # (2) the map view: every identifier ever issued
         id_view_ok = True
@@ -207,14 +242,13 @@ class StoreModel:
             st = ref.status(oid, now)
             if have is None:
                 if st == "must":
-                    v("valid_object_missing", oid=oid, loc=r.locname, validity=r.validity, age=R.clock(now) - r.added, channel="id", **res)
+                    v("valid_object_missing", oid=oid, loc=r.locname, validity=r.validity, age=R.clock(now) - r.added, channel="id", twin=twin(r), **res)
             elif st == "gone":
-                v("removed_object_kept", oid=oid, cause="delete_acknowledged" if r.deleted else "swept_by_maintenance", channel="id", **res)
+                v("removed_object_kept", oid=oid, cause="delete_acknowledged" if r.deleted else "swept_by_maintenance", channel="id", twin=has_twin(r), **res)
             else:
                 d = _first_diff(r.record(), have)
                 if d:
-                    v("record_mismatch", oid=oid, field=d, loc=r.locname, channel="id", registered=exp.get("registered"),
-                      target=exp.get("target"), **res)
+                    v("record_mismatch", oid=oid, field=d, loc=r.locname, channel="id", target=exp.get("target"), **res)
 
         # (3) IF.LDM.4 requests
         recs_bad = any(o["kind"] in ("valid_object_missing", "removed_object_kept", "record_mismatch") for o in out)
@@ -236,10 +270,10 @@ class StoreModel:
                     continue
                 if recs_bad and id_view_ok:
                     continue      # already attributed through the map view
-                have = Counter(ckey(x) for x in data)
+                have = Counter(self._ikey(x) for x in data)
                 must, may = Counter(), Counter()
                 for r in ref.recs.values():
-                    k = ckey(r.record())
+                    k = self._rkey(r)
                     if not r.must_absent():
                         may[k] += 1
                         if r.must_present(now) and R.msg_type(r.content) in types:
@@ -247,14 +281,14 @@ class StoreModel:
                 lost = must - have
                 extra = have - may
                 if lost:
-                    r = next(r for r in ref.recs.values() if ckey(r.record()) in lost)
+                    r = next(r for r in ref.recs.values() if self._rkey(r) in lost)
                     v("valid_object_missing", oid=r.oid, loc=r.locname, validity=r.validity, age=R.clock(now) - r.added, channel="query",
-                      types=list(types), **res)
+                      types=list(types), twin=twin(r), **res)
                 if extra:
-                    gone = [r for r in ref.recs.values() if r.must_absent() and ckey(r.record()) in extra]
+                    gone = [r for r in ref.recs.values() if r.must_absent() and self._rkey(r) in extra]
                     if gone:
                         v("removed_object_kept", oid=gone[0].oid, cause="delete_acknowledged" if gone[0].deleted else "swept_by_maintenance",
-                          channel="query", **res)
+                          channel="query", twin=has_twin(gone[0]), **res)
                     else:
                         v("unexpected_object", channel="query", types=list(types), **res)
                     recs_bad = True
@@ -286,9 +320,7 @@ class StoreModel:
             base = L.its_ms(now)
             items = []
             for oid, rec in sorted(db.database.items()):
-                rr = dict(rec)
-                rr["timestamp"] = rr["timestamp"] - base
-                items.append((oid, ckey(rr)))
+                items.append((oid, rec["timestamp"] - base, self._ikey(rec)))
             real = (tuple(items), db._next_id, tuple(sorted(s.data_provider_its_aid)), tuple(sorted(s.data_consumer_its_aid)),
                     min(round(now - m.last_trash_collection_time, 3), 1.0), m.new_data_recieved_flag)
         except Exception:  # noqa: BLE001 - refactored tree: fall back to the generic digest (finer, still sound)
